@@ -95,9 +95,76 @@ def items(path):
     return out
 
 
+W17_KINDS = [
+    ("array", "multi::array<Tracked, DD>"),
+    ("static_array", "multi::static_array<Tracked, DD>"),
+    ("array_ref", "multi::array_ref<Tracked, DD>"),
+    ("array_ref over const elements", "multi::array_ref<Tracked, DD, Tracked const*>"),
+    ("mutable view", "multi::subarray<Tracked, DD>"),
+    ("const view (const_subarray)", "multi::const_subarray<Tracked, DD>"),
+    ("view over const elements", "multi::subarray<Tracked, DD, Tracked const*>"),
+    ("row of a const array", "std::decay_t<decltype(std::declval<multi::array<Tracked, DD + 1> const&>()[0])>"),
+    ("row of a mutable array", "std::decay_t<decltype(std::declval<multi::array<Tracked, DD + 1>&>()[0])>"),
+    ("extensions", "multi::extensions_t<DD>"),
+]
+
+
+def w17(rep, wd, dims):
+    """W17.inst: the serialize member of every array / view kind instantiates with an archive (an archive applies serialize to a const_cast of the
+    object it is given, so what must compile is `object.serialize(ar, version)` on each kind, whatever the constness of its elements)"""
+    from vlib import witness
+    lines = [owning.TYPES, SYM, "#include <utility>"]
+    index = {}
+    for D in dims:
+        lines.append("namespace w17_d%d { constexpr multi::dimensionality_type DD = %d;" % (D, D))
+        for k, (name, ty) in enumerate(W17_KINDS):
+            lines.append("template<class K = %s> void w17_%d(K& obj, SymAr& ar) { obj.serialize(ar, 0U); } template void w17_%d<>(%s&, SymAr&);" % (ty, k, k, ty))
+            index[sum(l.count("\n") + 1 for l in lines)] = (name, D)
+        lines.append("}")
+    tu = os.path.join(wd, "w17.cpp")
+    with open(tu, "w") as fh:
+        fh.write("\n".join(lines) + "\n")
+    rc, diags, raw = witness.compile_tu(tu)
+    failed = {}
+    loose = []
+    for e, notes in witness.group_errors(diags):
+        line = witness.attribute(e, notes, tu)
+        if line in index:
+            failed.setdefault(line, e["msg"])
+        else:
+            loose.append(e["msg"])
+    if loose:
+        # an error inside a function with a deduced return type carries no note that leads back to the witness: compile the witnesses one by one
+        def alone(line):
+            one = os.path.join(wd, "w17_%d.cpp" % line)
+            with open(one, "w") as fh:
+                fh.write("\n".join(l if (i + 1 == line or i + 1 not in index) else "" for i, l in enumerate("\n".join(lines).split("\n"))) + "\n")
+            rc1, diags1, _ = witness.compile_tu(one)
+            errs = [e for e, _n in witness.group_errors(diags1)]
+            return line, (errs[0]["msg"] if errs else None)
+        found = False
+        for line, msg in witness.parallel(alone, [l for l in index if l not in failed]):
+            if msg:
+                failed[line] = msg
+                found = True
+        if not found:
+            for m in loose[:3]:
+                rep.break_("W17 witness TU: " + m[:160])
+    for line, (name, D) in sorted(index.items()):
+        key = "W17.inst:%s,D=%d" % (name, D)
+        if line in failed:
+            rep.violated(key, "W17.inst", "serialize of a %s (D=%d) does not instantiate with an archive: %s" % (name, D, failed[line][:200]), dict(D=D, error=failed[line][:300]))
+        else:
+            rep.ok(key, "W17.inst", None)
+    rep.units.add("w17.cpp")
+    return len(index)
+
+
 def run(tier):
     rep = common.Report("C17", tier, "other", "one obligation per (rule, class, D)")
     wd = common.workdir("c17")
+    nw = w17(rep, wd, (1, 2) if tier == "quick" else (1, 2, 3))
+    rep.need_instances("W17.inst witnesses", nw, 18)
     dims = (1, 2) if tier == "quick" else (1, 2, 3, 4)
     n = 0
     for D in dims:
